@@ -266,15 +266,66 @@ class NodeModel:
         return 'one'
 
 
+def inline_self_calls(fn: ast.FunctionDef, lookup: T.Callable[[str], T.Optional[ast.FunctionDef]], keep: T.Callable[[str], bool], depth: int = 0) -> ast.FunctionDef:
+    """Copy of `fn` in which every statement `self.h(args)` (h found by `lookup`, not kept by `keep`, without a valued return,
+    arguments bindable by signature) is replaced by h's body with the parameters substituted - the "trivial helper inlined"
+    normal form, two levels deep."""
+    import copy
+
+    class Subst(ast.NodeTransformer):
+        def __init__(self, m: T.Dict[str, ast.AST]):
+            self.m = m
+
+        def visit_Name(self, n: ast.Name) -> ast.AST:
+            if n.id in self.m and isinstance(n.ctx, ast.Load):
+                return ast.copy_location(copy.deepcopy(self.m[n.id]), n)
+            return n
+
+    def expand(stmts: T.List[ast.stmt], d: int) -> T.List[ast.stmt]:
+        out: T.List[ast.stmt] = []
+        for st in stmts:
+            for field in ('body', 'orelse', 'finalbody'):
+                if isinstance(getattr(st, field, None), list) and not isinstance(st, (ast.FunctionDef, ast.ClassDef)):
+                    setattr(st, field, expand(getattr(st, field), d))
+            c = st.value if isinstance(st, ast.Expr) and isinstance(st.value, ast.Call) else None
+            name = (attr_chain(c.func) or '')[5:] if c is not None and (attr_chain(c.func) or '').startswith('self.') and (attr_chain(c.func) or '').count('.') == 1 else ''
+            h = lookup(name) if name and not keep(name) and d < 2 else None
+            if h is not None and h is not fn:
+                ps = params_of(h)[1:]
+                b = bind_call(c, ps)  # type: ignore[arg-type]
+                defaults = dict(zip(reversed(ps), reversed(h.args.defaults)))
+                rets = [r for r in walk_no_nested(h) if isinstance(r, ast.Return)]
+                stores = [x for x in walk_no_nested(h) if isinstance(x, ast.Name) and x.id in ps and not isinstance(x.ctx, ast.Load)]
+                if b is not None and not rets and not stores and all(a is not None or p_ in defaults for a, p_ in zip(b, ps)):
+                    m = {p_: (a if a is not None else defaults[p_]) for a, p_ in zip(b, ps)}
+                    body = [Subst(m).visit(copy.deepcopy(x)) for x in h.body
+                            if not (isinstance(x, ast.Expr) and isinstance(x.value, ast.Constant))]
+                    out += expand(body, d + 1)
+                    continue
+            out.append(st)
+        return out
+    new = copy.deepcopy(fn)
+    new.body = expand(new.body, depth)
+    ast.fix_missing_locations(new)
+    return new
+
+
 def fixed_spellings(repo: T.Any, model: NodeModel) -> T.Dict[str, str]:
     """Node classes that the full-fidelity printer replays as a constant text, whatever token they were built from:
     `RawPrinter.visit_<K>` appends one string constant and reads no field of the node."""
     pm = repo.module(PRINTER)
     out: T.Dict[str, str] = {}
-    for name, fn in pm.methods('RawPrinter').items():
+    meths = pm.methods('RawPrinter')
+    for name, fn in meths.items():
         if not name.startswith('visit_') or name[6:] not in model.classes:
             continue
+        fn = inline_self_calls(fn, meths.get, lambda n: n in ('enter_node', 'exit_node') or n.startswith('visit_'))
         node = params_of(fn)[1] if len(params_of(fn)) > 1 else None
+        opaque = [c for c in walk_no_nested(fn) if isinstance(c, ast.Call) and (attr_chain(c.func) or '').startswith('self.')
+                  and (attr_chain(c.func) or '')[5:] not in ('enter_node', 'exit_node')]
+        if opaque:
+            out[name[6:]] = '?'     # what is printed for this class is decided in a helper that is not followed
+            continue
         adds = [n for n in walk_no_nested(fn) if isinstance(n, ast.AugAssign) and attr_chain(n.target) == 'self.result']
         reads = [n for n in walk_no_nested(fn) if isinstance(n, ast.Attribute) and isinstance(n.value, ast.Name) and n.value.id == node]
         if len(adds) == 1 and isinstance(adds[0].value, ast.Constant) and isinstance(adds[0].value.value, str) and not reads:
